@@ -17,6 +17,13 @@ CHECKS = {
         note="WASM glue not executed (no wasm target/node in the image)",
         technique="runtime differential monitoring across entry points (in-process, subprocess binaries, Python extension)",
     ),
+    "C12": dict(
+        category="exploration",
+        text="Runtime trace monitor on the stepping debugger: every generated compiled program / random raw CLVM program is stepped to the end through CldbRun, cldb_hierarchy and the hex route; every emitted row is judged online against clvmr (operator applied to the reported arguments gives the reported value), row numbering, final value / failure entry against the consensus result, hex vs source rows; a sample is repeated through the real cldb binary (-x, -x -t) whose YAML must equal the judged rows.",
+        design_ref="DESIGN.md §4 C12",
+        note="rows of the apply operator have no Arguments field and are outside the per-row clause; one listed finding (i rows)",
+        technique="runtime trace monitoring against a reference evaluator (online row oracle) + differential against the real binary",
+    ),
     "C18": dict(
         category="exploration",
         text="Runtime monitor at two boundaries: the dependency listing of the real `run -M` / Python check_dependencies is compared with the files a real compilation of the same generated include graph actually opens (strace openat log), for random graphs, shadowed duplicates, embed-file kinds, dialects and search-path orders.",
